@@ -4,7 +4,7 @@ Everything is a z3 term.  A Machine is cheap to clone (dict copies + copy-on-wri
 """
 import z3
 
-__all__ = ['Machine', 'Memory', 'Region', 'Fault', 'Unmodelled', 'Access', 'GPR64', 'FLAG_NAMES', 'bv', 'simp']
+__all__ = ['Machine', 'Memory', 'Region', 'Fault', 'Unmodelled', 'Access', 'GPR64', 'FLAG_NAMES', 'bv', 'simp', 'byte_name']
 
 GPR64 = ['rax', 'rcx', 'rdx', 'rbx', 'rsp', 'rbp', 'rsi', 'rdi', 'r8', 'r9', 'r10', 'r11', 'r12', 'r13', 'r14', 'r15']
 FLAG_NAMES = ('cf', 'pf', 'af', 'zf', 'sf', 'of')     # 'af' is kept in addition to the five flags the SPEC names
@@ -39,7 +39,8 @@ class Unmodelled(Exception):
 
 class Access(tuple):
     """One entry of the access log:
-    (kind 'R'|'W', region name, offset (int, or a 64-bit term for symbolic_index regions), nbytes, insn addr,
+    (kind 'R'|'W', region name, offset (int; (row, int) for rows >= 1 of a 2-D array; a 64-bit term for symbolic_index
+     regions), nbytes, insn addr,
      pcnd_len (the path condition at the time of the access is machine.pcnd[:pcnd_len]), requires_alignment 0|16|32)"""
     __slots__ = ()
     kind = property(lambda s: s[0])
@@ -49,6 +50,12 @@ class Access(tuple):
     insn_addr = property(lambda s: s[4])
     pcnd_len = property(lambda s: s[5])
     requires_alignment = property(lambda s: s[6])
+
+
+def byte_name(region, key):
+    """Name of the symbol standing for the initial content of one byte: d1_b5, d1_bm3 (offset -3), d1_r1_b5 (row 1)."""
+    row, off = (0, key) if isinstance(key, int) else key
+    return '%s%s_b%s%d' % (region, '_r%d' % row if row else '', 'm' if off < 0 else '', abs(off))
 
 
 class Region(object):
@@ -68,23 +75,33 @@ class Region(object):
               Concrete-offset accesses to such a region also go through the array so both views agree.
     """
 
-    def __init__(self, name, base, size=None, writable=True, init=None, default=None, symbolic_index=False, array=None):
+    def __init__(self, name, base, size=None, writable=True, init=None, default=None, symbolic_index=False, array=None,
+                 stride=None, rows=1):
         self.name = name
         self.base = base if not isinstance(base, int) else int(base)
         self.size = size
         self.writable = writable
         self.bytes = dict(init) if init else {}
         self._owned = True
-        self.default = default or (lambda off, _n=name: z3.BitVec('%s_b%d' % (_n, off) if off >= 0 else '%s_bm%d' % (_n, -off), 8))
+        self.default = default or (lambda off, _n=name: z3.BitVec(byte_name(_n, off), 8))
         self.symbolic_index = symbolic_index
         self.array = array if array is not None else (z3.Array(name + '_arr', z3.BitVecSort(64), z3.BitVecSort(8)) if symbolic_index else None)
         self._base_id = None if isinstance(self.base, int) else self.base.get_id()
+        # 2-D arrays: row k (1 <= k < rows) lives at base + k * zext64(stride); its bytes use keys (k, offset)
+        self.stride = stride
+        self.rows = rows
+        # wide cells: (key, nbytes) -> the whole term last stored there.  `bytes` stays the ground truth; a cell is
+        # dropped as soon as any overlapping byte is written.  Avoids re-assembling values from 8 simplified byte terms.
+        self.wide = {}
+        self._wide_owned = True
 
     def fork(self):
         r = Region.__new__(Region)
         r.__dict__.update(self.__dict__)
         r._owned = False
         self._owned = False
+        r._wide_owned = False
+        self._wide_owned = False
         return r
 
     def _own(self):
@@ -104,16 +121,50 @@ class Region(object):
         self._own()
         self.bytes[off] = val
 
+    @staticmethod
+    def key(off, i):
+        """byte key i bytes after `off` (off is an int, or (row, int) for rows > 0 of a 2-D array)"""
+        return off + i if isinstance(off, int) else (off[0], off[1] + i)
+
+    def _own_wide(self):
+        if not self._wide_owned:
+            self.wide = dict(self.wide)
+            self._wide_owned = True
+
+    def drop_wide(self, off, nbytes):
+        """forget every wide cell overlapping [off, off+nbytes)"""
+        if not self.wide:
+            return
+        row = 0 if isinstance(off, int) else off[0]
+        lo = off if isinstance(off, int) else off[1]
+        dead = []
+        for (k, n) in self.wide:
+            krow = 0 if isinstance(k, int) else k[0]
+            klo = k if isinstance(k, int) else k[1]
+            if krow == row and klo < lo + nbytes and lo < klo + n:
+                dead.append((k, n))
+        if dead:
+            self._own_wide()
+            for d in dead:
+                del self.wide[d]
+
     def set_bytes(self, off, val, nbytes):
         """Initialise `nbytes` bytes at `off` (little endian) from a term or int; no log entry."""
         if isinstance(val, int):
             val = z3.BitVecVal(val, 8 * nbytes)
+        self.drop_wide(off, nbytes)
         for i in range(nbytes):
-            self.put(off + i, z3.simplify(z3.Extract(8 * i + 7, 8 * i, val)))
+            self.put(self.key(off, i), z3.simplify(z3.Extract(8 * i + 7, 8 * i, val)))
+        if nbytes > 1:
+            self._own_wide()
+            self.wide[(off, nbytes)] = val
 
     def peek(self, off, nbytes):
         """Current content (little endian term) without logging."""
-        bs = [self.get(off + i) for i in range(nbytes)]
+        w = self.wide.get((off, nbytes))
+        if w is not None:
+            return w
+        bs = [self.get(self.key(off, i)) for i in range(nbytes)]
         return z3.simplify(z3.Concat(*reversed(bs))) if nbytes > 1 else bs[0]
 
 
@@ -193,6 +244,15 @@ class Memory(object):
             off = z3.simplify(a - r.base)
             if z3.is_bv_value(off):
                 return r, off.as_signed_long()
+        # rows of 2-D arrays: base + k * zext(stride) + constant
+        for r in self.regions:
+            if r.stride is None or isinstance(r.base, int):
+                continue
+            st = z3.ZeroExt(32, r.stride) if r.stride.size() == 32 else r.stride
+            for k in range(1, r.rows):
+                off = z3.simplify(a - r.base - k * st)
+                if z3.is_bv_value(off):
+                    return r, (k, off.as_signed_long())
         ids = set(byid)
         for r in self.regions:
             if not r.symbolic_index or isinstance(r.base, int):
@@ -211,7 +271,10 @@ class Memory(object):
             ot = o if not isinstance(o, int) else z3.BitVecVal(o, 64)
             bs = [z3.Select(r.array, z3.simplify(ot + i)) for i in range(nbytes)]
         else:
-            bs = [r.get(o + i) for i in range(nbytes)]
+            w = r.wide.get((o, nbytes)) if nbytes > 1 else None
+            if w is not None:
+                return w
+            bs = [r.get(r.key(o, i)) for i in range(nbytes)]
         return z3.Concat(*reversed(bs)) if nbytes > 1 else bs[0]
 
     def store(self, addr, val, nbytes, m=None, align=0):
@@ -228,8 +291,12 @@ class Memory(object):
             r.array = arr
             return
         v = z3.simplify(val)
+        r.drop_wide(o, nbytes)
         for i in range(nbytes):
-            r.put(o + i, z3.simplify(z3.Extract(8 * i + 7, 8 * i, v)))
+            r.put(r.key(o, i), z3.simplify(z3.Extract(8 * i + 7, 8 * i, v)))
+        if nbytes > 1:
+            r._own_wide()
+            r.wide[(o, nbytes)] = v
 
 
 class Machine(object):
